@@ -176,14 +176,14 @@ theorem C03_norm_of_not_final (c : ComposeT) (h1 : c.label = none) (h2 : c.final
   subst h1 h2
   rfl
 
-/-- the gates the round trip depends on, read from the generated `VERSION` and the generated gates (tools/gen_builders.py): documents are written with a version
+/-- the gates the round trip depends on, read from the generated `VERSION` and the generated gates (tools/gen_gates.py): documents are written with a version
 the reader treats as current (type checked, no legacy conversion) -/
 theorem C03_version_gates :
-    versionTuple (.str currentVersion) = .ok (.nums [Gen.VERSION.1, Gen.VERSION.2])
-    ∧ gateHolds Gen.GATE_Header_deserialize [Gen.VERSION.1, Gen.VERSION.2] = true
-    ∧ gateHolds Gen.GATE_Rpms_deserialize [Gen.VERSION.1, Gen.VERSION.2] = false
-    ∧ gateHolds Gen.GATE_Compose_deserialize [Gen.VERSION.1, Gen.VERSION.2] = false :=
-  ⟨versionTuple_current, gate_header, gate_rpms, gate_compose⟩
+    versionTuple (.str currentVersion) = .ok (.nums Gen.VERSION)
+    ∧ Gen.gate_common_Header_deserialize_0.eval? Gen.VERSION = some true
+    ∧ Gen.gate_rpms_Rpms_deserialize_0.eval? Gen.VERSION = some false
+    ∧ Gen.gate_composeinfo_Compose_deserialize_0.eval? Gen.VERSION = some false :=
+  ⟨versionTuple_current, gate_header_some, gate_rpms_some, gate_compose_some⟩
 
 /-! ### non-vacuity: concrete compose sections satisfy the hypotheses; a concrete history goes round -/
 
